@@ -218,10 +218,27 @@ void XMLWriter::init(const template_t& templ)
     endElement();
 }
 
+/* Branchpoints are numbered after the locations of their template, so that ids stay unique within the template. */
+static int endpoint_nr(const location_t* loc, const branchpoint_t* bp, int locations)
+{
+    return loc != nullptr ? loc->nr : locations + bp->bpNr;
+}
+
+/* writes a branchpoint */
+void XMLWriter::branchpoint(const branchpoint_t& bp, int locations)
+{
+    int nr = locations + bp.bpNr;
+    startElement("branchpoint");
+    writeAttribute("id", concat("id", nr).c_str());
+    writeAttribute("x", std::to_string(STEP * nr).c_str());
+    writeAttribute("y", std::to_string(STEP * nr).c_str());
+    endElement();
+}
+
 /* writes the source of the given edge */
 int XMLWriter::source(const edge_t& edge)
 {
-    int loc = edge.src->nr;
+    int loc = endpoint_nr(edge.src, edge.srcb, currentLocations);
     const auto id = concat("id", loc);
     startElement("source");
     writeAttribute("ref", id.c_str());
@@ -232,7 +249,7 @@ int XMLWriter::source(const edge_t& edge)
 /* writes the target of the given edge */
 int XMLWriter::target(const edge_t& edge)
 {
-    int loc = edge.dst->nr;
+    int loc = endpoint_nr(edge.dst, edge.dstb, currentLocations);
     const auto id = concat("id", loc);
     startElement("target");
     writeAttribute("ref", id.c_str());
@@ -275,7 +292,7 @@ void XMLWriter::transition(const edge_t& edge)
     auto src = source(edge);
     auto dst = target(edge);
     if (src == dst) {
-        float angle = (edge.src->uid.get_name() != "lpmin") ? (3 * M_PI_2) : M_PI;
+        float angle = (edge.src == nullptr || edge.src->uid.get_name() != "lpmin") ? (3 * M_PI_2) : M_PI;
         selfLoop(src, angle, edge);
     } else {
         int x = STEP * src;
@@ -328,6 +345,12 @@ void XMLWriter::taTempl(const template_t& templ)
     for (auto& loc : templ.locations) {
         location(loc);
         selfLoops[loc.nr] = 0;
+    }
+    // branchpoints
+    currentLocations = templ.locations.size();
+    for (auto& bp : templ.branchpoints) {
+        branchpoint(bp, currentLocations);
+        selfLoops[currentLocations + bp.bpNr] = 0;
     }
     // initial location
     init(templ);
